@@ -28,6 +28,9 @@ pub enum StreamSpec {
     /// that was damaged: a junk line inserted at a line boundary, bytes set / inserted / deleted
     /// behind the signature. No verdict is expected, only agreement of all segmentations.
     Raw { bytes: Hex, sig_len: u16 },
+    /// an ONC-RPC call record cut into two or three record fragments (only the last record mark
+    /// carries the last-fragment bit): again no verdict is expected, only agreement
+    RpcFragments { bytes: Hex },
 }
 
 #[derive(Clone, Debug, Serialize, Deserialize, PartialEq)]
@@ -105,7 +108,7 @@ fn small_http() -> impl Strategy<Value = HttpReq> {
 
 fn junk_line() -> impl Strategy<Value = Vec<u8>> {
     prop_oneof![
-        6 => prop::sample::select(vec![&b"X\rY: a"[..], b"nocolon", b"a b: c", b": v", b"\x00k: v", b"k\x80: v", b"X\r", b"\r", b" folded: v", b"k: v\rw", b"k:", b"GET / HTTP/1.1", b"HTTP/1.1 200 OK", b"k : v", b"k\t: v", b"\n"]).prop_map(|b| b.to_vec()),
+        6 => prop::sample::select(vec![&b"X\rY: a"[..], b"nocolon", b"a b: c", b": v", b"\x00k: v", b"k\x80: v", b"X\r", b"\r", b" folded: v", b"k: v\rw", b"k:", b"GET / HTTP/1.1", b"HTTP/1.1 200 OK", b"k : v", b"k\t: v", b"\n", b" continued", b"\tcontinued value", b" ", b"\t", b" a: b"]).prop_map(|b| b.to_vec()),
         1 => vec(any::<u8>(), 1..10),
     ]
 }
@@ -142,6 +145,35 @@ fn small_http_damaged() -> impl Strategy<Value = StreamSpec> {
     })
 }
 
+fn rpc_fragments() -> impl Strategy<Value = StreamSpec> {
+    (small_rpc(), any::<u16>(), prop::option::weighted(0.5, any::<u16>()), vec(any::<u8>(), 0..8)).prop_map(|(r, a, b, more)| {
+        let rec = r.record();
+        let mut body = rec[4..].to_vec();
+        body.extend_from_slice(&more);
+        let n = body.len();
+        let mut cuts = vec![1 + pick(a, n.saturating_sub(1).max(1))];
+        if let Some(b) = b {
+            cuts.push(1 + pick(b, n.saturating_sub(1).max(1)));
+        }
+        cuts.retain(|c| *c < n);
+        cuts.sort();
+        cuts.dedup();
+        let mut v = Vec::new();
+        let mut prev = 0;
+        for c in cuts.iter().chain(std::iter::once(&n)) {
+            let frag = &body[prev..*c];
+            let mut mark = frag.len() as u32;
+            if *c == n {
+                mark |= 0x8000_0000;
+            }
+            v.extend_from_slice(&mark.to_be_bytes());
+            v.extend_from_slice(frag);
+            prev = *c;
+        }
+        StreamSpec::RpcFragments { bytes: Hex(v) }
+    })
+}
+
 fn small_rpc() -> impl Strategy<Value = RpcCall> {
     rpc_call().prop_map(|mut r| {
         if r.cred.len() < 255 {
@@ -161,13 +193,14 @@ pub fn case_strategy(big: bool) -> impl Strategy<Value = Case> {
             4 => small_http().prop_map(StreamSpec::Http),
             3 => small_http_damaged(),
             3 => small_rpc().prop_map(StreamSpec::Rpc),
+            1 => rpc_fragments(),
             1 => (small_rpc(), prop_oneof![small_rpc().prop_map(|r| { let mut v = r.record(); v.truncate(40); Hex(v) }), vec(any::<u8>(), 1..12).prop_map(Hex)]).prop_map(|(r, more)| StreamSpec::RpcThen(r, more)),
         ].boxed()
     };
     (scenario_quiet(Fam::Any), port(), port(), spec, vec(vec(any::<u16>(), 3..10), 24)).prop_map(move |(scn, sport, dport, spec, kcuts)| {
         // exhaustive 2-cut enumeration is quadratic: streams beyond 160 bytes (credentials of 255+ bytes)
         // are cut over the boundary set (which holds every offset of the first 64 bytes) instead
-        let n = match &spec { StreamSpec::Http(h) => h.bytes().len(), StreamSpec::Rpc(r) => r.record().len(), StreamSpec::RpcThen(r, m) => r.record().len() + m.len(), StreamSpec::Raw { bytes, .. } => bytes.len() };
+        let n = match &spec { StreamSpec::Http(h) => h.bytes().len(), StreamSpec::Rpc(r) => r.record().len(), StreamSpec::RpcThen(r, m) => r.record().len() + m.len(), StreamSpec::Raw { bytes, .. } => bytes.len(), StreamSpec::RpcFragments { bytes } => bytes.len() };
         Case { scn, sport, dport, spec, kcuts, sampled: !big && n > 160 }
     })
 }
@@ -232,6 +265,7 @@ pub fn check(c: &Case, st: &mut Stats) -> Check {
             b.extend_from_slice(more);
             (b, 28, e, r.aligned(), "rpc+more")
         }
+        StreamSpec::RpcFragments { bytes } => (bytes.0.clone(), 28usize.min(bytes.len().saturating_sub(1)).max(1), bytes.len(), false, "rpc-fragments"),
         StreamSpec::Raw { bytes, sig_len } => (bytes.0.clone(), (*sig_len as usize).min(bytes.len().saturating_sub(1)).max(1), bytes.len(), false, "http-damaged"),
     };
     let n = s.len();
@@ -287,7 +321,7 @@ pub fn check(c: &Case, st: &mut Stats) -> Check {
             }
         }
     } else if let Some((t, _)) = &t_fin {
-        st.class(if what == "http-damaged" { "http-damaged:answered-all-the-same" } else { "rpc:unaligned-opaque(tracked separately)" });
+        st.class(if what == "http-damaged" { "http-damaged:answered-all-the-same" } else if what == "rpc-fragments" { "rpc-fragments:answered" } else { "rpc:unaligned-opaque(tracked separately)" });
         let _ = t;
     }
     let t_inf = t_fin.is_none();
@@ -429,7 +463,7 @@ pub fn check(c: &Case, st: &mut Stats) -> Check {
     st.frames(r.frames);
     st.add_extra("segmentations_checked", checked);
     st.add_extra("segmentations_with_first_cut_inside_signature", inside);
-    if !t_inf || what == "http-damaged" {
+    if !t_inf || what == "http-damaged" || what == "rpc-fragments" {
         st.nontrivial_hash(fnv(&s));
         st.sample(|| json!({"protocol": what, "stream": hex(&s[..n.min(120)]), "length": n, "signature_len": sig_len, "request_end": req_end, "trigger_offset": t, "segmentations": checked}));
     }
